@@ -64,6 +64,7 @@ def make_pool(seed):
     P['mB'] = S['Tfan4'].build()
     P['mQ'] = S['Q2'].build()
     P['mL'] = S['L3'].build()
+    P['mM'] = S['T2'].build().mirrored((1., 0.))                # clockwise cells: oriented() has work to do
     # an already tagged mesh and a transformed copy of it (copies made by replace() may share containers)
     P['mT'] = S['Tfan4'].build().with_boundaries({'a': np.array([0, 1], dtype=np.int32)}).with_subdomains(
         {'s': np.array([0], dtype=np.int32)})
@@ -93,7 +94,7 @@ def make_pool(seed):
 
 def arrays_of_pool(P):
     out = []
-    for k in ('mA', 'mC', 'mB', 'mQ', 'mL', 'mT', 'mT2'):
+    for k in ('mA', 'mC', 'mB', 'mQ', 'mL', 'mT', 'mT2', 'mM'):
         m = P[k]
         out += [m.p, m.t]
         for tags in (m.boundaries, m.subdomains):
@@ -256,6 +257,10 @@ def operations():
         lambda P: [P['mT'].with_subdomains({'r': np.array([1, 2], dtype=np.int32)}).subdomains['r']])
     op('mT2.boundaries', {'mT', 'mT2'})(lambda P: [np.asarray(P['mT2'].boundaries['a']), np.array(sorted(len(k) for k in P['mT2'].boundaries))])
     op('mT.restrict+refined', {'mT'})(lambda P: [P['mT'].restrict(np.array([0, 1])).boundaries['a'], P['mT'].refined().boundaries['a']])
+    op('mM.oriented()', {'mM'})(lambda P: [P['mM'].oriented().t, P['mM'].oriented().orientation()])
+    op('mM.assemble(P2)', {'mM', 'eP2', 'lap'})(lambda P: [P['lap'].assemble(fem.CellBasis(P['mM'], P['eP2'])).toarray()])
+    op('mM.InteriorFacetBasis(P2).trace', {'mM', 'eP2'})(
+        lambda P: _basis_obs(fem.InteriorFacetBasis(P['mM'], P['eP2'], side=1)))
     op('mA.translated', {'mA'})(lambda P: [P['mA'].translated((1., 2.)).p])
     op('mQ.to_meshtri', {'mQ'})(lambda P: [P['mQ'].to_meshtri().t, P['mQ'].to_meshtri(style='x').p])
     op('mA.to_dict', {'mA'})(lambda P: [np.array(P['mA'].to_dict()['p']), np.array(P['mA'].to_dict()['t'])])
